@@ -9,6 +9,8 @@ import (
 	"regexp"
 	"sort"
 	"strings"
+	"sync"
+	"verif/sqliteh"
 
 	"ariga.io/atlas/sql/migrate"
 	"ariga.io/atlas/sql/mysql"
@@ -443,12 +445,74 @@ func opScopeErr() Op {
 }
 
 // Ops is the operation alphabet.
+// the dev database of this process: one connection that serves every planning round, one at a time
+// (what a long-running `atlas` command with several environments, or a program using the Go API, has).
+var (
+	devMu     sync.Mutex
+	devEngine *sqliteh.Engine
+)
+
+// opReplayDev replays a migration directory (a table, an index, a view) on the process-wide dev
+// database and renders the resulting state; a replay must leave nothing behind that a later replay
+// (of the same or of another directory) could see.
+func opReplayDev(variant int) Op {
+	return Op{fmt.Sprintf("replay_on_shared_dev_sqlite/%d", variant), func() (string, error) {
+		devMu.Lock()
+		defer devMu.Unlock()
+		ctx := context.Background()
+		if devEngine == nil {
+			e, err := sqliteh.Open(ctx)
+			if err != nil {
+				return "", err
+			}
+			devEngine = e
+		}
+		dir := &migrate.MemDir{}
+		files := map[string]string{
+			"1_a.sql": "CREATE TABLE t (id integer NOT NULL, a integer);\nCREATE INDEX idx_a ON t (a);\nCREATE VIEW v AS SELECT id FROM t;\n",
+			"2_b.sql": "ALTER TABLE t ADD COLUMN b text;\n",
+		}
+		if variant == 1 {
+			// another project: its own table t is rebuilt (a rename, which SQLite checks against every view).
+			files = map[string]string{
+				"1_a.sql": "CREATE TABLE t (id integer NOT NULL, c text);\n",
+				"2_b.sql": "CREATE TABLE new_t (id integer NOT NULL, c integer);\nINSERT INTO new_t (id, c) SELECT id, c FROM t;\nDROP TABLE t;\nALTER TABLE new_t RENAME TO t;\n",
+			}
+		}
+		for n, c := range files {
+			if err := dir.WriteFile(n, []byte(c)); err != nil {
+				return "", err
+			}
+		}
+		sum, err := dir.Checksum()
+		if err != nil {
+			return "", err
+		}
+		if err := migrate.WriteSumFile(dir, sum); err != nil {
+			return "", err
+		}
+		ex, err := migrate.NewExecutor(devEngine.Atlas.Driver, dir, migrate.NopRevisionReadWriter{})
+		if err != nil {
+			return "", err
+		}
+		realm, err := ex.Replay(ctx, migrate.RealmConn(devEngine.Atlas.Driver, nil))
+		if err != nil {
+			return "replay failed: " + err.Error(), nil
+		}
+		b, err := sqlite.MarshalHCL.MarshalSpec(realm)
+		if err != nil {
+			return "", err
+		}
+		return string(b), nil
+	}}
+}
+
 func Ops(thorough bool) []Op {
 	var ops []Op
 	for _, d := range dfu.Dialects {
 		ops = append(ops, opPlans(d, thorough), opDiffOrder(d), opMarshal(d), opEvalMarshal(d))
 	}
-	ops = append(ops, opFormat(), opChecksum(), opValidateErr(), opScopeErr(), opEvalMultiFile())
+	ops = append(ops, opFormat(), opChecksum(), opValidateErr(), opScopeErr(), opEvalMultiFile(), opReplayDev(0), opReplayDev(1))
 	sort.SliceStable(ops, func(i, j int) bool { return false })
 	return ops
 }
